@@ -858,7 +858,11 @@ impl<'a, 'tcx> Hx<'a, 'tcx> {
         use rustc_ast::LitKind;
         match &l.node {
             LitKind::Str(sym, _) => J::arr(vec![J::s("str"), J::s(sym.to_string())]),
-            LitKind::ByteStr(b, _) => J::arr(vec![J::s("bstr"), J::s(String::from_utf8_lossy(b.as_byte_str()).to_string())]),
+            LitKind::ByteStr(b, _) => {
+                let bytes: &[u8] = b.as_byte_str();
+                let hex: String = bytes.iter().map(|x| format!("{:02x}", x)).collect();
+                J::arr(vec![J::s("bstr"), J::s(String::from_utf8_lossy(bytes).to_string()), J::s(hex)])
+            }
             LitKind::CStr(b, _) => J::arr(vec![J::s("cstr"), J::s(String::from_utf8_lossy(b.as_byte_str()).to_string())]),
             LitKind::Byte(b) => J::arr(vec![J::s("int"), J::s(format!("{}", b))]),
             LitKind::Char(c) => J::arr(vec![J::s("char"), J::s(c.to_string())]),
